@@ -76,7 +76,8 @@ def make_real(spans, rel, form):
         # so any membership state shared between A and its copy would be stale for V
         r0 = form.split(":", 1)[1]
         base = SpanSet(list(spans), eq_relation=real_rel(r0))
-        for x in [(0, 0), (0, 3), (1, 2), (3, 3), (2, 2)]:
+        probes = [(0, 0), (0, 3), (1, 2), (3, 3), (2, 2)] if all(isinstance(o, (int, float)) for sp in spans for o in sp) else list(spans)[:5]
+        for x in probes:
             _ = x in base
         _ = base <= base
         v = base.copy()
@@ -117,6 +118,35 @@ def operands(tier, seed):
     return ops, extra, u
 
 
+def _twin(v):
+    """An equal offset that is another object."""
+    if isinstance(v, (int, float)):
+        return v + 10 ** 6 - 10 ** 6
+    if isinstance(v, tuple):
+        return tuple(list(v))
+    if isinstance(v, str):
+        return "".join(list(v))
+    return v
+
+
+# order preserving maps of the small integer offsets into other totally ordered types: a span is a pair of offsets of ANY such
+# type (positions as (line, column) pairs, zero padded strings, fractions)
+def _as_line_col(x):
+    return (x // 2, x % 2)
+
+
+def _as_padded_str(x):
+    return f"{x:03d}"
+
+
+def _as_fraction(x):
+    from fractions import Fraction
+    return Fraction(x, 3)
+
+
+OFFSET_TYPES = [("(line, column) pairs", _as_line_col), ("zero padded strings", _as_padded_str), ("fractions", _as_fraction)]
+
+
 def check_pair(a_spans, a_rel, b_spans, b_rel, form, u, res):
     """Returns None or (mechanism, summary)."""
     A = make_real(a_spans, a_rel, form)
@@ -138,7 +168,7 @@ def check_pair(a_spans, a_rel, b_spans, b_rel, form, u, res):
         return "construction", f"SpanSet({list(b_spans)}, {b_rel}) holds {list(B)}, definition keeps {kb}"
     for x in u:
         n += 1
-        x = (x[0] + 10 ** 6 - 10 ** 6, x[1])       # an equal span, not the identical tuple
+        x = (_twin(x[0]), x[1])       # an equal span, not the identical tuple
         if (x in A) != contains_ref(ka, a_rel, x):
             return "membership", f"{x} in SpanSet({ka}, {a_rel}) -> {x in A}"
     ina = lambda x: contains_ref(ka, a_rel, x)
@@ -230,6 +260,53 @@ def concurrent_first_queries(a_spans, a_rel, b_spans, b_rel, u, nthreads=4):
     return None
 
 
+def big_spans(seed, shard, bi, which):
+    r = common.rng_for(PROP, seed, "big", shard, bi, which)
+    n = r.randint(64, 160)
+    spans = []
+    for i in range(n):
+        st = 10 * i + r.choice([0, 0, 1, 2])
+        spans.append((st, st + r.choice([0, 3, 6, 6, 8, 12])))
+        if r.random() < 0.15:
+            spans.append((st + 1, st + 2))          # nested in / overlapping the previous one
+    r.shuffle(spans)
+    return spans
+
+
+def check_big(sa, rel, sb, rel_b, res):
+    """Two large operands against the definitions. Returns None or (mechanism, summary)."""
+    sa, sb = [tuple(x) for x in sa], [tuple(x) for x in sb]
+    A, B = make_real(sa, rel, "pairs"), make_real(sb, rel_b, "two_seq")
+    ka, kb = construct_ref(sa, rel), construct_ref(sb, rel_b)
+    if list(A) != ka or list(B) != kb:
+        return "construction", f"a SpanSet of {len(sa)} spans under {rel} keeps {len(list(A))} spans, the definition keeps {len(ka)}"
+    qs = []
+    for (s0, e0) in ka[::3] + kb[::5]:
+        qs += [(s0, e0), (s0, e0 - 1), (s0 + 1, e0), (s0, e0 + 1), (s0 - 1, e0), (s0 + 1, e0 - 1), (s0 - 1, e0 + 1)]
+    for x in qs:
+        res.evaluations += 1
+        if (x in A) != contains_ref(ka, rel, x):
+            return "membership", (f"{x} in a SpanSet of {len(ka)} spans under {rel} -> {x in A}; stored spans near it: "
+                                  f"{[y for y in ka if abs(y[0] - x[0]) <= 12]}")
+    ina = lambda x: contains_ref(ka, rel, x)
+    inb = lambda x: contains_ref(kb, rel_b, x)
+    chain = ka + kb
+    for sym, pred, real in (("&", lambda x: ina(x) and inb(x), lambda: A & B), ("-", lambda x: ina(x) and not inb(x), lambda: A - B),
+                            ("|", lambda x: ina(x) or inb(x), lambda: A | B), ("^", lambda x: ina(x) != inb(x), lambda: A ^ B)):
+        res.evaluations += 1
+        want = Counter(set(x for x in chain if pred(x)))
+        gl = list(real())
+        if Counter(gl) != want:
+            return "set-operator", (f"two large sets ({len(ka)} spans under {rel}, {len(kb)} under {rel_b}): {sym} yields {len(gl)} spans, "
+                                    f"the definition {sum(want.values())}; differing: {sorted((Counter(gl) - want) + (want - Counter(gl)))[:6]}")
+    le_ab = all(inb(x) for x in ka)
+    dis = all(not ina(x) for x in kb)
+    if (A <= B) != le_ab or A.isdisjoint(B) != dis:
+        return "comparison", (f"two large sets ({len(ka)} spans under {rel}, {len(kb)} under {rel_b}): <= -> {A <= B} (definition {le_ab}), "
+                              f"isdisjoint -> {A.isdisjoint(B)} (definition {dis})")
+    return None
+
+
 def run_shard(spec):
     instr.install(["windpyutils.structures.span_set"])
     res = ShardResult()
@@ -263,6 +340,16 @@ def run_shard(spec):
             if bad:
                 bad = (bad[0], "[offsets shifted by 1.7e9 as floats] " + bad[1])
             res.count("operand_pairs_with_large_float_offsets")
+        if not bad and idx % 13 in (4, 9) and a[0]:
+            tname, tf = OFFSET_TYPES[(idx // 13) % len(OFFSET_TYPES)]
+            sh = lambda spans: tuple((tf(s), tf(e)) for s, e in spans)
+            try:
+                bad = check_pair(sh(a[0]), a[1], sh(b[0]), b[1], form, [(tf(s), tf(e)) for s, e in u], res)
+            except Exception as e:
+                bad = ("operation-raised", f"{type(e).__name__}: {e} for A={a}, B={b} with offsets as {tname}")
+            if bad:
+                bad = (bad[0], f"[offsets as {tname}] " + bad[1])
+            res.count("operand_pairs_with_offsets_of_another_ordered_type")
         nonlocal nconc
         if not bad and len(a[0]) >= 2 and b[0] and nconc < (60 if spec["tier"] == "quick" else 1500) and idx % 7 == 0:
             nconc += 1
@@ -279,7 +366,8 @@ def run_shard(spec):
             if per_mech[bad[0]] <= 10:
                 res.violation(bad[0], bad[1], {"case": {"a": [list(a[0]), a[1]], "b": [list(b[0]), b[1]],
                                                         "form": form, "tier": spec["tier"],
-                                                        "shift": 1.7e9 if bad[1].startswith("[offsets shifted") else 0}})
+                                                        "shift": 1.7e9 if bad[1].startswith("[offsets shifted") else 0,
+                                                        "otype": (idx // 13) % len(OFFSET_TYPES) if bad[1].startswith("[offsets as") else None}})
         elif idx % 20011 == 0:
             res.sample({"A": list(a[0]), "relA": a[1], "B": list(b[0]), "relB": b[1], "form": form})
 
@@ -327,6 +415,19 @@ def run_shard(spec):
                                       f"(<=, >=, ==, isdisjoint, <) -> {got}, definitions give {want}",
                                       {"case": {"a": [list(la[0]), la[1]], "b": [list(b[0]), b[1]], "form": "pairs", "tier": spec["tier"]}})
         res.count("long_lived_operands")
+    # large sets (64-160 stored spans): membership of spans that share an end point with a stored span, and the operators
+    # between two large sets, against the definitions
+    for bi in range(4 if spec["tier"] == "quick" else 24):
+        rel = REL_NAMES[(bi + spec["shard"]) % 4]
+        rel_b = REL_NAMES[(bi // 4 + spec["shard"] // 4) % 4]
+        sa, sb = big_spans(spec["seed"], spec["shard"], bi, 0), big_spans(spec["seed"], spec["shard"], bi, 1)
+        try:
+            bad = check_big(sa, rel, sb, rel_b, res)
+        except Exception as e:
+            bad = ("operation-raised", f"{type(e).__name__}: {e} for two large sets under {rel} / {rel_b}")
+        if bad:
+            res.violation(bad[0], bad[1], {"case": {"a": [sa, rel], "b": [sb, rel_b], "form": "pairs", "tier": spec["tier"], "big": True}})
+        res.count("large_operand_pairs")
     res.count("repo_line_events", instr.S.total)
     return res.as_dict()
 
@@ -343,7 +444,13 @@ def replay(doc):
     sh = c.get("shift", 0)
     a = (tuple((sh + s, sh + e) if sh else (s, e) for s, e in c["a"][0]), c["a"][1])
     b = (tuple((sh + s, sh + e) if sh else (s, e) for s, e in c["b"][0]), c["b"][1])
-    if c.get("threads"):
+    if c.get("big"):
+        bad = check_big(c["a"][0], c["a"][1], c["b"][0], c["b"][1], ShardResult())
+    elif c.get("otype") is not None:
+        tf = OFFSET_TYPES[c["otype"]][1]
+        sh_ = lambda spans: tuple((tf(s_), tf(e_)) for s_, e_ in spans)
+        bad = check_pair(sh_(a[0]), a[1], sh_(b[0]), b[1], c["form"], [(tf(s_), tf(e_)) for s_, e_ in universe(c.get("tier", "thorough"))], ShardResult())
+    elif c.get("threads"):
         bad = None
         for _ in range(30):
             bad = bad or concurrent_first_queries(a[0], a[1], b[0], b[1], universe(c.get("tier", "thorough")))
